@@ -1948,6 +1948,8 @@ class TestGraph(object):
                 object_vm,
                 object_image,
             )
+            # a failed configuration is a failed try of the installation node
+            test_node.results += pre_node.results[len(test_node.results) :]
             return status
 
         logging.info("Installing virtual machine %s", test_object.suffix)
